@@ -318,7 +318,9 @@ CfgRecord ==
       expected |-> Expected,
       multilaw |-> MultiLaw,
       counts |-> IF Expected = "Written" THEN [b \in Blocks |-> [a \in 1..3 |-> FamCount(<<b, a - 1>>)]] ELSE <<>>,
-      nfam |-> Cardinality(Families), rounds |-> Rounds ]
+      nfam |-> Cardinality(Families), rounds |-> Rounds,
+      \* do two user-chopped directions meet on one edge? (then the user gave that edge two laws)
+      clash |-> \E n \in Nodes : uchops[n] # <<>> /\ \E i \in 1..4 : \E c \in co[<<n, i>>] : uchops[c.n] # <<>> ]
 EmitCfg == (phase = "grade" /\ pc = <<1, 0>> /\ round = 1) => PrintT(ToJson(CfgRecord))
 InitOnly == phase = "grade" /\ pc = <<1, 0>> /\ round = 1
 =============================================================================
